@@ -681,8 +681,14 @@ def run_seq(case, problems):
         diffs = compare_turn(o, iso[i]["obs"][t], ordered=False)
         if diffs:
             diverged.add(i)  # its history differs from now on; the other conversations are still judged
-            what, sentence, _ = diffs[0]
+            what, sentence, extra = diffs[0]
             detail = {"leg": "seq", "what": what, "conv": i, "turn": t, "hit": hit, "tainted": i in tainted_convs}
+            if what in ("params-start", "params-end") and extra is not None and i not in tainted_convs:
+                rc, f = extra
+                conf = shared.configured.get("model_kwargs", shared.configured)
+                detail.update(overlap=False, sequential=True, observed=repr(rc[f]), field=f, unconfigured_param=("temperature" if f.startswith("t_") else "max_tokens") not in conf)
+                problems.append(Violation("llm-params-leak" if what == "params-start" else "llm-params-changed-during-call", f"{where}: {sentence}; sequential, no other request in flight", detail))
+                continue
             if i in tainted_convs:
                 if hit and hit["tainted"]:
                     sig = (f"the ':'-joined key {hit['key']!r} of the first {hit['p']} of its {hit['of']} messages is the key under which conversation {hit['writer']} stored "
